@@ -59,6 +59,23 @@ class Creds(object):
         self.cli_key = write_key_pem(ctx, self.cli_priv, self.dir + '/clikey.pem')
 
 
+class CustomCreds(object):
+    """Credential files from explicit DER lists / private scalars (for defect scenarios)."""
+
+    def __init__(self, ctx, tag, server_chain, server_sign_priv, server_enc_priv=None, client_trust=None,
+                 client_chain=None, client_priv=None, server_trust=None):
+        self.dir = os.path.join(ctx.tmp, 'cc-' + tag)
+        os.makedirs(self.dir, exist_ok=True)
+        d = self.dir
+        self.tls_chain = self.tlcp_chain = write_file(d + '/srv_chain.pem', X.certs_pem(server_chain))
+        self.sign_key = write_key_pem(ctx, server_sign_priv, d + '/signkey.pem')
+        self.enc_key = write_key_pem(ctx, server_enc_priv, d + '/enckey.pem') if server_enc_priv else None
+        self.root_pem = write_file(d + '/cli_trust.pem', X.certs_pem(client_trust)) if client_trust else None
+        self.cli_chain = write_file(d + '/cli_chain.pem', X.certs_pem(client_chain)) if client_chain else None
+        self.cli_key = write_key_pem(ctx, client_priv, d + '/clikey.pem') if client_priv else None
+        self.srv_trust = write_file(d + '/srv_trust.pem', X.certs_pem(server_trust)) if server_trust else None
+
+
 def make_ctx(ctx, proto, is_client, chain=None, key=None, enc_key=None, ca=None, depth=4, password=PASSWORD):
     """TLS_CTX configured through the public API; returns GBuf or raises AssertionError with the step."""
     lib, L = ctx.lib, ctx.L
@@ -77,10 +94,12 @@ def make_ctx(ctx, proto, is_client, chain=None, key=None, enc_key=None, ca=None,
     return c
 
 
-def pair_ctx(ctx, creds, proto, mutual=False, depth=4):
+def pair_ctx(ctx, creds, proto, mutual=False, depth=4, client_has_cert=None):
+    srv_trust = getattr(creds, 'srv_trust', None) or creds.root_pem
     srv = make_ctx(ctx, proto, False, creds.tlcp_chain if proto == TLCP else creds.tls_chain, creds.sign_key,
-                   creds.enc_key, creds.root_pem if mutual else None, depth)
-    cli = make_ctx(ctx, proto, True, creds.cli_chain if mutual else None, creds.cli_key if mutual else None,
+                   creds.enc_key, srv_trust if mutual else None, depth)
+    has = mutual if client_has_cert is None else client_has_cert
+    cli = make_ctx(ctx, proto, True, creds.cli_chain if has else None, creds.cli_key if has else None,
                    None, creds.root_pem, depth)
     return srv, cli
 
